@@ -35,3 +35,10 @@ const _: () = {
         }
     }
 };
+
+#[cfg(ohkami_verif)]
+#[doc(hidden)]
+/// verification hooks (compiled only with `--cfg ohkami_verif`)
+pub mod __verif {
+    pub use super::de::valid::{name, value};
+}
